@@ -16,7 +16,12 @@ import (
 	"time"
 )
 
-var Root = "/verif"
+var Root = func() string {
+	if r := os.Getenv("VERIF_ROOT"); r != "" {
+		return r
+	}
+	return "/verif"
+}()
 
 type Finding struct {
 	Property string `json:"property"`
